@@ -4,9 +4,10 @@
    The extracted model is run against the real containers on every ./check (T-cor). *)
 From Coq Require Import ZArith List Bool.
 From MomoCommon Require Import GenPrelude.
-From C14 Require Import PropagationModel Model Proofs Bodies BodiesProofs Crew GenProofs GenProofs2.
+From C14 Require Import PropagationModel Model Proofs Bodies BodiesProofs Crew GenProofs GenProofs2 GenProofs3.
 From C14 Require Gen_TreeSet Gen_HashSet Gen_HashMultiMap Gen_DataTable Gen_SetCrew Gen_CrewContract.
 From C14 Require Gen_SetCrew2 Gen_SetCrewInl Gen_TreeSet2 Gen_HashSet2 Gen_DataTable2 Gen_MemPool Gen_MemPoolData Gen_MergeToFacts.
+From C14 Require Gen_TreeSet3 Gen_HashSet3 Gen_TableCrew Gen_DataTable3 Gen_HashMultiMap2 Gen_AssignShapes Gen_StdishDecisions.
 Import ListNotations.
 Local Open Scope Z_scope.
 
@@ -679,3 +680,103 @@ Theorem C14_mergeto_empty_destination_is_swap :
      (dc, dp) = (c, p) /\ (sc, sp) = (c', p')).
 Proof. exact mergeto_empty_destination_is_swap. Qed.
 Print Assumptions C14_mergeto_empty_destination_is_swap.
+
+(* ---- (13) round 8: generated move construction end to end, move assignment composed, stdish decision rules ------------------- *)
+(* TreeSet / HashSet / DataTable move constructors (the initialiser mCrew(std::move(x.mCrew)) runs the crew's own generated move
+   constructor): the new object gets every field of the source, the source keeps a null crew and null / zero storage fields *)
+Theorem C14_gen_move_ctors :
+  (forall c n r p c' n' r' p', Gen_TreeSet3.MoveCtor c n r p c' n' r' p' = (c', n', r', p', 0, 0, 0, 0)) /\
+  (forall c n k b c' n' k' b', Gen_HashSet3.MoveCtor c n k b c' n' k' b' = (c', n', k', b', 0, 0, 0, 0)) /\
+  (forall mv c r p i c' r' p' i', Gen_DataTable3.MoveCtor mv c r p i c' r' p' i' = (c', r', p', i', 0, mv r', mv p', mv i')) /\
+  (forall a b, Gen_TableCrew.Swap a b = (b, a)) /\ (forall junk s, Gen_TableCrew.MoveCtor junk s = (s, 0)).
+Proof. exact gen_move_ctors. Qed.
+Print Assumptions C14_gen_move_ctors.
+
+(* "moved-from then Clear" (a0dc6a6, c9f565a) over generated code only: generated move constructor, then generated Clear /
+   destructor body on the source's fields with crew_null computed by the generated null test -- always returns normally *)
+Theorem C14_gen_moved_from_then_clear :
+  (forall c n r p c' n' r' p',
+     let '(_, _, _, _, sc, sn, sr, sp) := Gen_TreeSet3.MoveCtor c n r p c' n' r' p' in
+     Gen_TreeSet.Clear (Gen_SetCrew.pvIsNull sc) sn sr sp = GenPrelude.Ok (tt, sn, sr, sp) /\
+     Gen_TreeSet.pvDestroy (Gen_SetCrew.pvIsNull sc) sn sr sp = GenPrelude.Ok tt) /\
+  (forall c n k b c' n' k' b' shrink,
+     let '(_, _, _, _, sc, sn, sk, sb) := Gen_HashSet3.MoveCtor c n k b c' n' k' b' in
+     Gen_HashSet.Clear (Gen_SetCrew.pvIsNull sc) sn sk sb shrink = GenPrelude.Ok (tt, sn, sk, sb)) /\
+  (forall mv c r p i c' r' p' i',
+     let '(_, _, _, _, sc, _, _, _) := Gen_DataTable3.MoveCtor mv c r p i c' r' p' i' in
+     Gen_DataTable.Clear (Gen_TableCrew.IsNull sc 0) = GenPrelude.Ok tt).
+Proof. exact gen_moved_from_then_clear. Qed.
+Print Assumptions C14_gen_moved_from_then_clear.
+
+(* the move / copy assignment operators of TreeSet, HashSet, HashMultiMap, DataTable are `X(std::move(x)).Swap( *this); return
+   *this;` resp. `if (this != &x) X(x).Swap( *this); return *this;` (AST facts) *)
+Theorem C14_gen_assign_shapes :
+  Gen_AssignShapes.tree_move_assign_shape = move_assign_expected /\ Gen_AssignShapes.hash_move_assign_shape = move_assign_expected /\
+  Gen_AssignShapes.multi_move_assign_shape = move_assign_expected /\ Gen_AssignShapes.table_move_assign_shape = move_assign_expected /\
+  Gen_AssignShapes.tree_copy_assign_shape = copy_assign_expected /\ Gen_AssignShapes.hash_copy_assign_shape = copy_assign_expected /\
+  Gen_AssignShapes.multi_copy_assign_shape = copy_assign_expected /\ Gen_AssignShapes.table_copy_assign_shape = copy_assign_expected.
+Proof. exact gen_assign_shapes. Qed.
+Print Assumptions C14_gen_assign_shapes.
+
+(* move assignment composed of the generated move constructor, Swap and destructor body: *this gets exactly the source's
+   fields, the source is moved-from, the old contents go through the old crew, and x.Clear() afterwards is a no-op *)
+Theorem C14_gen_tree_move_assign :
+  forall tc tn tr tp sc sn sr sp,
+    let '(destroyed, this', src') := tree_move_assign (tc, tn, tr, tp) (sc, sn, sr, sp) in
+    this' = (sc, sn, sr, sp) /\ src' = (0, 0, 0, 0) /\
+    ((tc <> 0 \/ (tr = 0 /\ tp = 0)) -> destroyed = GenPrelude.Ok tt) /\
+    (let '(c, n, r, p) := src' in Gen_TreeSet.Clear (Gen_SetCrew.pvIsNull c) n r p = GenPrelude.Ok (tt, n, r, p)).
+Proof. exact gen_tree_move_assign. Qed.
+Print Assumptions C14_gen_tree_move_assign.
+
+Theorem C14_cc_move_ctor_refines_generated :
+  forall src junk1 junk2 junk3 junk4,
+    let '(d, s') := cc_move_ctor src in
+    Gen_TreeSet3.MoveCtor junk1 junk2 junk3 junk4 (crew_ptr src) (count2 src) (storage2 src) (storage2 src)
+      = (crew_ptr d, count2 d, storage2 d, storage2 d, crew_ptr s', count2 s', storage2 s', storage2 s').
+Proof. exact cc_move_ctor_refines_generated. Qed.
+Print Assumptions C14_cc_move_ctor_refines_generated.
+
+Theorem C14_gen_multi_swap :
+  forall h n v h' n' v', Gen_HashMultiMap2.Swap h n v h' n' v' = (h', n', v', h, n, v).
+Proof. exact gen_multi_swap. Qed.
+Print Assumptions C14_gen_multi_swap.
+
+(* stdish decision rules generated from the six wrappers (operator=(X&&), operator=(const X&), swap, pvCreateX): they are the
+   decision functions of PropagationModel.v ... *)
+Theorem C14_gen_stdish_rules_are_the_model :
+  (forall tr, Gen_StdishDecisions.um_move_propagate tr = w_propagate_move tr) /\
+  (forall tr, Gen_StdishDecisions.um_copy_propagate tr = w_propagate_copy tr) /\
+  (forall tr a b, Gen_StdishDecisions.um_swap_assert tr (alloc_eq tr a b) = w_swap_assert_holds tr a b) /\
+  (forall tr, negb (Gen_StdishDecisions.um_swap_assert tr false) = w_swap_evaluates_allocators tr).
+Proof. exact stdish_rules_are_the_model. Qed.
+Print Assumptions C14_gen_stdish_rules_are_the_model.
+
+(* ... and equal the allocator-requirements table of the standard for every stateful allocator type and every pair of ids
+   (the other five wrappers share the rules of unordered_map: stdish_rules_same_code in GenProofs3.v, by reflexivity) *)
+Theorem C14_gen_stdish_rules_follow_std_table :
+  forall tr s t, is_empty tr = false ->
+    gen_target_alloc_move tr s t = std_target_alloc tr OpMoveAssign s t /\
+    gen_elementwise_move tr s t = std_elementwise tr OpMoveAssign s t /\
+    gen_target_alloc_copy tr s t = std_target_alloc tr OpCopyAssign s t /\
+    (forall eq, Gen_StdishDecisions.um_swap_assert tr eq = (pocs tr || eq)) /\
+    (Gen_StdishDecisions.um_swap_assert tr (Z.eqb s t) = std_defined tr OpSwap s t).
+Proof. exact gen_stdish_rules_follow_std_table. Qed.
+Print Assumptions C14_gen_stdish_rules_follow_std_table.
+
+(* the two known findings, stated on the generated rules *)
+Theorem C14_gen_D12_refuted :
+  forall tr c w, pocs tr = false ->
+    (Gen_StdishDecisions.um_swap_assert tr true <> Gen_StdishDecisions.um_swap_assert tr false) /\
+    w_swap tr MovedFrom c w = NullCrew.
+Proof. exact gen_D12_refuted. Qed.
+Print Assumptions C14_gen_D12_refuted.
+
+Theorem C14_gen_D13_refuted :
+  forall wk tr c w,
+    (Gen_StdishDecisions.um_move_alloc_from_right (Gen_StdishDecisions.um_move_propagate tr) = false ->
+       w_move_assign wk tr MovedFrom c w = NullCrew) /\
+    (Gen_StdishDecisions.um_copy_alloc_from_right (Gen_StdishDecisions.um_copy_propagate tr) = false ->
+       w_copy_assign wk tr MovedFrom c w = NullCrew).
+Proof. exact gen_D13_refuted. Qed.
+Print Assumptions C14_gen_D13_refuted.
